@@ -60,7 +60,7 @@ CHECKS = {
         "note": TB + "Callbacks are opaque user code that may set the flag in any event; exceptions raised by callbacks and tqdm are out of scope. Counterexamples are shortest distinguishing event traces.",
     },
     "C13": {
-        "technique": "static analysis: rational-function identity test of the pairwise merge, integer lower-bound reasoning with path facts (divisor != 0), loop summarisation + call records for the schedule; necessary-condition rules imported from C08.R1 and C16.R5",
+        "technique": "static analysis: rational-function identity test of the pairwise merge, integer lower-bound reasoning with path facts (divisor != 0), loop summarisation + call records for the schedule; necessary-condition rules imported from C08.R1 and C16.R5; same-name observables context (known finding recorded in known_findings.json)",
         "text": "The merge routine equals the Chan pairwise update as an identity of rational functions on the generic branch and never divides by zero / uses the undefined variance of a one-element chunk; "
                 "both statistics drivers draw ceil(n/chains) times, use burn_in first and steps afterwards on the same continuing chains (overwrite=True internally), touch initial_state only under overwrite, "
                 "evaluate every observable on the chain state of the current draw, and report chains x draws.",
@@ -76,7 +76,7 @@ CHECKS = {
         "note": TB + "Not decided: 'a different seed gives different draws'; determinism of torch kernels. User callables are assumed to touch state only through the public API.",
     },
     "C15": {
-        "technique": "static analysis: term normal forms of every kernel against the complex multiplication table, ordered symbolic shapes for the Kronecker layout, path partitioning for guards",
+        "technique": "static analysis: term normal forms of every kernel against the complex multiplication table, ordered symbolic shapes for the Kronecker layout, path partitioning for guards; operand purity (no write into an operand), float-width facet (a float32 operand never narrows a float64 one), numeric-hazard catalogue for the complex sigmoid decided by cases of elementwise selections",
         "text": "Sign tables of scalar/elementwise/matrix/einsum/inner/outer products and conjugations, real/imag slot order of construction and conversion, x-major Kronecker layout for non-square operands, "
                 "errors raised before any write for aliasing out= buffers and unsupported ranks, and inverse / division / modulus / norms as rational-function identities.",
         "design_ref": "DESIGN.md section 4 C15",
@@ -86,7 +86,7 @@ CHECKS = {
 
 CHECKS.update({
     "C03": {
-        "technique": "static analysis: callability by abstract interpretation with virtual dispatch (definite AttributeError = violation), ordered symbolic shapes for the gradient-vector layout, term normal forms against a derivative table, loop summarisation + call records for per-basis grouping",
+        "technique": "static analysis: callability by abstract interpretation with virtual dispatch (definite AttributeError = violation), ordered symbolic shapes for the gradient-vector layout, term normal forms against a derivative table, loop summarisation + call records for per-basis grouping; history independence of gradient() (each call hands out its own tensors; parameters replaced by p.data = new and by reinitialize_parameters())",
         "text": "Every public gradient method of the three state types is callable (all paths); every gradient vector (10 producers, reduce/expand/phase contexts) has its segments in parameter registration order with "
                 "hidden-major weight flattening (ordered products: a transposed W segment is a layout error even though every test has nh == nv); energy-gradient segments equal -sigmoid(the energy's own pre-activation) x v etc.; "
                 "positive phase = gradient / rows of the same batch; group i uses basis unique[i] and samples[inverse == i], contribution k accumulated into gradient k, all-Z groups add no phase gradient; "
@@ -95,7 +95,7 @@ CHECKS.update({
         "note": TB + "Not decided: analytic correctness of rotated_gradient / pi_grad (derivatives through the basis rotation and the complex logarithm), the 1e-8 regulariser, finite-difference agreement.",
     },
     "C04": {
-        "technique": "static analysis: exact constant evaluation of the default unitaries over Q(sqrt 2), axis-role binding of index tensors vs einsum factors, index provenance (dependence) in the gather, order polarity of the Kronecker sweep; history independence by a three-call abstract interpretation (parameters replaced, inputs overwritten in place) compared under symbol renaming; exact 1-4 site instances of the Kronecker sweep; sibling equality of the two call forms",
+        "technique": "static analysis: exact constant evaluation of the default unitaries over Q(sqrt 2), axis-role binding of index tensors vs einsum factors, index provenance (dependence) in the gather, order polarity of the Kronecker sweep; history independence by a three-call abstract interpretation (parameters replaced, inputs overwritten in place) compared under symbol renaming; exact 1-4 site instances of the Kronecker sweep; sibling equality of the two call forms; per-path rule on the rotation factor (complex entries of user unitaries), storage freshness of create_dict(), float-width facet (python floats stored as float32), identity-skip cases of the Kronecker sweep decided from condition values",
         "text": "Z is the identity, X and Y are unitary with U sigma U^dagger = diag(+1,-1) (rows = conjugated +1/-1 eigenvectors, exact arithmetic); in rotate_rho_probs both the model path and the explicit-rho path bind rho's "
                 "row index to the non-conjugated factor U and its column index to conj(U), and reductions remove exactly the expansion axes; the unitary is gathered as [site, :, measured outcome, summed input]; "
                 "sites are swept last-to-first with a stride starting at 1 (site 0 = leftmost Kronecker factor); rotate_rho = U (U rho)^dagger.",
@@ -103,7 +103,7 @@ CHECKS.update({
         "note": TB + "Not decided: numeric equality with the dense Kronecker product, non-negativity / normalisation of rotated probabilities, the in-place block arithmetic of _kron_mult beyond the stride order.",
     },
     "C06": {
-        "technique": "static analysis: term normal form of the CD update as a linear form (assume/guarantee stub for the positive phase), CFG dominance for the per-batch pipeline and the scheduler, effect/call-record pairing of gradient vectors with networks, exact slice offsets of vector_to_grads; necessary-condition rules imported from C03.R2; call sites of fit resolved by interpretation (not by receiver names), per-path operation timeline",
+        "technique": "static analysis: term normal form of the CD update as a linear form (assume/guarantee stub for the positive phase), CFG dominance for the per-batch pipeline and the scheduler, effect/call-record pairing of gradient vectors with networks, exact slice offsets of vector_to_grads; necessary-condition rules imported from C03.R2; call sites of fit resolved by interpretation (not by receiver names), per-path operation timeline; container-effect rule on caller-owned option dictionaries",
         "text": "compute_batch_gradients == [positive[0] - E_grad(gibbs_steps(k, neg_batch)) / rows(neg_batch), positive[1]] with k and the negative batch forwarded unchanged (all state types); in fit the gradients are "
                 "computed, assigned network by network (gradient i -> parameters of network i) and applied by exactly one unconditional optimizer.step() per batch, never cleared in between; the optimizer is built over all "
                 "parameters with the caller's lr; scheduler.step() runs exactly once per epoch outside the batch loop; vector_to_grads writes vec[offset : offset+numel] reshaped to each parameter in parameters() order with exact polynomial offsets.",
@@ -111,7 +111,7 @@ CHECKS.update({
         "note": TB + "Not decided: what torch.optim.SGD.step does with the gradient (trusted), numeric equality of the parameter move.",
     },
     "C07": {
-        "technique": "static analysis: def-use identity of the random permutation (unique draw atoms), tiling of comprehension ranges, integer linear forms for batch counts, effect analysis on the caller's data",
+        "technique": "static analysis: def-use identity of the random permutation (unique draw atoms), tiling of comprehension ranges, integer linear forms for batch counts, effect analysis on the caller's data; repeated-call contexts (another data set, same batch sizes); unrecognised batch structure is undecided",
         "text": "Samples and bases are indexed by the same randperm(N) draw and cut by the same range(0, N, b) into slices [s, s+b); num_batches = ceil(N/b) is what fit passes on, negative rows are num_batches*neg_batch_size "
                 "random rows (bounded by the row count of the tensor they index) of the training data or of the all-Z rows, giving exactly num_batches negative batches so zip drops nothing; fit never writes data or input_bases "
                 "for tensor, ndarray and list inputs.",
@@ -127,7 +127,7 @@ CHECKS.update({
         "note": TB + "Not decided: the Uhlmann formula / eigenvalue computation, ranges, invariance under a global phase (numeric). The rotation routines are decided by C04.",
     },
     "C16": {
-        "technique": "static analysis: abstract interpretation of the operator overloads and composite apply() with opaque leaf values (term normal forms), type-case enumeration of the constructors; history independence by a three-call abstract interpretation (parameters replaced, inputs overwritten in place) compared under symbol renaming; leaf results that are views of the batch are never written",
+        "technique": "static analysis: abstract interpretation of the operator overloads and composite apply() with opaque leaf values (term normal forms), type-case enumeration of the constructors; history independence by a three-call abstract interpretation (parameters replaced, inputs overwritten in place) compared under symbol renaming; leaf results that are views of the batch are never written; order independence (an expression is unchanged by building larger ones from it)",
         "text": "All seven overloads with float / int / numpy.float64 / constant scalars in both operand positions and nested trees evaluate to exactly that arithmetic on the leaves' per-sample values; "
                 "SumObservable adds each operand exactly once for every accepted type pair, ProdObservable stores (scalar, observable) whichever side the scalar was on; non-linear or non-numeric combinations "
                 "are rejected at construction; composites inherit the statistics drivers, which evaluate the composite's own apply().",
@@ -135,7 +135,7 @@ CHECKS.update({
         "note": TB + "Not decided: behaviour of numpy scalar types' own __mul__/__add__ when they pre-empt the reflected operators.",
     },
     "C17": {
-        "technique": "static analysis: path partitioning on the period gate (effects only on paths that established epoch % period == 0), writer/reader agreement between record layout and accessors after two evaluations, literal agreement of CSV keys, call-record binding for the saver; necessary-condition rules imported from C11.R1 and C12.R4",
+        "technique": "static analysis: path partitioning on the period gate (effects only on paths that established epoch % period == 0), writer/reader agreement between record layout and accessors after two evaluations, literal agreement of CSV keys, call-record binding for the saver; necessary-condition rules imported from C11.R1 and C12.R4; second-run rule for the model saver",
         "text": "MetricEvaluator, ObservableEvaluator, ModelSaver, Logger and EarlyStopping act only on multiples of the period and in no other event (ModelSaver.on_train_start iff save_initial); each evaluation appends one "
                 "(epoch, values) record and sets last; len / epochs / names / per-name arrays / get_value (default most recent) / clear_history agree with that layout; CSV header == row keys; the saver names files by the "
                 "epoch ('initial'), passes (nn_state, epoch) to a callable metadata, saves dict metadata as is and None as {}.",
@@ -151,7 +151,7 @@ CHECKS.update({
         "note": TB + "Relies on C17.R2 (one record per evaluation). The monitored values are opaque.",
     },
     "C19": {
-        "technique": "static analysis: order-polarity domain (ascending/descending significance along the site axis) over the index terms, guard-before-allocation path check, literal/binding checks of the loaders; history independence by a three-call abstract interpretation (parameters replaced, inputs overwritten in place) compared under symbol renaming and order independence of the enumeration",
+        "technique": "static analysis: order-polarity domain (ascending/descending significance along the site axis) over the index terms, guard-before-allocation path check, literal/binding checks of the loaders; history independence by a three-call abstract interpretation (parameters replaced, inputs overwritten in place) compared under symbol renaming and order independence of the enumeration; explicit-device call form, polarity of shift-and-mask bit extraction, rank of every loadtxt result",
         "text": "generate_hilbert_space, subspace_vector and _convert_basis_element_to_index are all big-endian (site 0 = most significant bit; rows in ascending integer order; weights 2^(n-1)..2^0); oversized spaces are "
                 "refused by `size > max_size` before any allocation; loaders read samples/targets as float32 and bases as str, map target columns 0/1 to real/imaginary, return [samples, target, bases, all bases] in order, "
                 "load_data_DM refuses a single matrix file; extract_refbasis_samples keeps samples[all(bases == 'Z', dim=1)].",
